@@ -45,6 +45,26 @@ K_WITNESSES = [("<a>*", '"x"?', "xx", "first"), ("<a>+", '"x"*', "xx", "first"),
 INPUTS = ["", "x", "xx", "xy"]
 MODES = ["first", "forest", "prefix"]
 
+# second family: whole specs that are NOT in class K on this tree (capped `{n,}` over empty-deriving bodies; computed
+# repetitions below left / right recursion and `+`); each with its own inputs.  case = ("spec:<name>", "", input, mode)
+SPEC_FAMILY = {
+    "open_bound_over_option": ('<start> ::= <cell>{2,}\n<cell> ::= "x"?\n', ["xx", "x", "xxx"]),
+    "open_bound_over_group": ('<start> ::= "[" (<flag>? <sep>?){1,} "]"\n<flag> ::= "a" | "b"\n<sep> ::= ","\n', ["[a,,b,]", "[a]", "[,]"]),
+    "open_bound_plain": ('<start> ::= <a>{2,} "."\n<a> ::= "x"\n', ["xx.", "xxx.", "x."]),
+    "computed_left_rec": ('<start> ::= <records>\n<records> ::= <records> ";" <record> | <record>\n<record> ::= <len> <item>{int(<len>)}\n'
+                          '<len> ::= "1" | "2"\n<item> ::= "a"\n', ["1a", "2aa", "1a;2aa", "1a;1"]),
+    "computed_right_rec": ('<start> ::= <records>\n<records> ::= <record> ";" <records> | <record>\n<record> ::= <len> <item>{int(<len>)}\n'
+                           '<len> ::= "1" | "2"\n<item> ::= "a"\n', ["1a", "1a;2aa", "2a"]),
+    "computed_plus": ('<start> ::= <record>+\n<record> ::= <len> <item>{int(<len>)} ";"\n<len> ::= "1" | "2"\n<item> ::= "a"\n',
+                      ["1a;", "1a;2aa;", "2a;"]),
+    "left_rec_plain": ('<start> ::= <e>\n<e> ::= <e> "+" <t> | <t>\n<t> ::= <t> "*" <f> | <f>\n<f> ::= "1" | "(" <e> ")"\n', ["1+1*1", "(1+1)*1", "1+"]),
+    "ambiguous_concat": ('<start> ::= <s>\n<s> ::= <s> <s> | "a"\n', ["aaaa", "aaaaa"]),
+}
+
+
+def is_spec_case(case) -> bool:
+    return case[0].startswith("spec:")
+
 CHILD = r'''
 import sys, json
 sys.path.insert(0, %(src)r)
@@ -74,9 +94,13 @@ def spec_of(start: str, a: str) -> str:
     return f"<start> ::= {start}\n<a> ::= {a}\n<b> ::= \"x\"\n<c> ::= \"y\"?\n"
 
 
+def text_of(case) -> str:
+    return SPEC_FAMILY[case[0][5:]][0] if is_spec_case(case) else spec_of(case[0], case[1])
+
+
 def run_case(case, budget):
     start, a, word, mode = case
-    code = CHILD % {"src": SRC, "spec": spec_of(start, a), "mode": mode, "word": word}
+    code = CHILD % {"src": SRC, "spec": text_of(case), "mode": mode, "word": word}
     env = dict(os.environ)
     env["PYTHONPATH"] = SRC
     env.pop("FANDANGO_RAISE_ALL_EXCEPTIONS", None)
@@ -92,16 +116,19 @@ def run_case(case, budget):
 
 
 def witness_of(case) -> str:
+    if is_spec_case(case):
+        return f"spec={case[0][5:]};input={case[2]!r};mode={case[3]}".replace(" ", "")
     return f"start={case[0]!r};a={case[1]!r};input={case[2]!r};mode={case[3]}".replace(" ", "")
 
 
 def replay_script(case, budget):
     start, a, word, mode = case
+    shown = text_of(case).replace("\n", " ; ")
     return f'''#!/usr/bin/env python3
 """C06 witness: parse request does not return within {budget} s.
-grammar: <start> ::= {start} ; <a> ::= {a} ; input {word!r} ; mode {mode}.  Exit 1 = reproduced."""
+grammar: {shown} input {word!r} ; mode {mode}.  Exit 1 = reproduced."""
 import subprocess, sys, os
-code = {CHILD % {"src": SRC, "spec": spec_of(start, a), "mode": mode, "word": word}!r}
+code = {CHILD % {"src": SRC, "spec": text_of(case), "mode": mode, "word": word}!r}
 try:
     p = subprocess.run([sys.executable, "-c", code], capture_output=True, text=True, timeout={budget})
     print("returned:", p.stdout.strip()[-100:], p.stderr.strip()[-200:])
@@ -127,6 +154,10 @@ def run(tier="quick", seed=0, pid="C06"):
         cases = [c for c in cases if c[2] == "xx" and c[3] in ("first", "prefix")]
     skipped = [c for c in cases if in_known_class(c[0], c[1]) and c not in K_WITNESSES]
     cases = [c for c in cases if not in_known_class(c[0], c[1])] + list(K_WITNESSES)
+    for name, (_, words) in SPEC_FAMILY.items():
+        for w in (words if tier != "quick" else words[:2]):
+            for m in (MODES if tier != "quick" else ("first", "forest", "prefix")):
+                cases.append(("spec:" + name, "", w, m))
     results = []
     with ThreadPoolExecutor(max_workers=min(16, os.cpu_count() or 4)) as ex:
         results = list(ex.map(lambda c: run_case(c, budget), cases))
@@ -143,7 +174,8 @@ def run(tier="quick", seed=0, pid="C06"):
     nontrivial = len([c for c in distinct if c[2] != ""])
     return {
         "evaluations": len(results), "distinct_nontrivial": nontrivial, "exhaustive": True,
-        "rule": f"all {len(STARTS)}x{len(AS)} grammars of the family x inputs x modes (quick: input 'xx'; modes first, prefix), "
+        "rule": f"all {len(STARTS)}x{len(AS)} grammars of the family x inputs x modes (quick: input 'xx'; modes first, prefix), plus {len(SPEC_FAMILY)} whole specs "
+                "(capped {n,} over empty-deriving bodies, computed repetitions below left/right recursion and +, plain left recursion, an ambiguous rule) x 2-4 inputs x 3 modes, "
                 f"each parse request in a child process with a {budget:.0f} s wall-clock budget (12 x calibration run of {cal:.1f} s, at least 20/60 s); "
                 "grammars of the known class K (unbounded repetition over an empty-deriving body, decided by the harness's own "
                 f"nullability table) are represented by {len(K_WITNESSES)} listed witnesses, the other {len(skipped)} K cases are skipped; "
